@@ -7,6 +7,7 @@
 import Jesse.Gen.Sim
 import Proofs.Lemmas.Aggregate
 import Proofs.Lemmas.Num
+import Proofs.Lemmas.StoreProto
 
 namespace C07
 open Jesse Jesse.Gen Jesse.Store Spec AggLemmas
@@ -284,5 +285,233 @@ example :
     (match getCandles ones long 3 with
      | .ok r => decide (r = [⟨0, 1, 2, 4, 1, 3⟩, ⟨180000, 2, 4, 6, 2, 4⟩, ⟨360000, 4, 6, 8, 4, 4⟩])
      | _ => false) = true := by decide +kernel
+
+/-! ### the store protocol of the simulators: how `StoreInv` is (re)established at every observation time
+
+Both simulators write the store of one (symbol, timeframe `m`) with four operations only:
+* NEW MINUTE — `add_candle(1m row)` with a later timestamp (the next minute of the session);
+* REPLACE LAST — `add_candle(1m row)` with the timestamp of the last stored minute (the partial candle of a fill,
+  or the whole minute once matching is over);
+* PUBLISH — `_update_all_routes_a_partial_candle`: after a REPLACE LAST, the aggregate of the minutes of the
+  forming window (selected by TIMESTAMP arithmetic) is added to the long array — before every order execution,
+  and (since fix 0726e8d1) before the forced close of a liquidation;
+* CLOSE WINDOW — when `(i + 1) % m == 0`, the aggregate of the window's `m` rows is added to the long array.
+Hooks (the observation times of the property) run after a PUBLISH or after all CLOSE WINDOWs of the iteration.
+The theorems below show, for every store content and every timeframe, that NEW MINUTE and REPLACE LAST keep the
+weaker `PreInv` (the long array is right up to the window that contains the last stored minute, possibly followed by
+one candle carrying that window's start timestamp) and that PUBLISH and CLOSE WINDOW turn `PreInv` into `StoreInv`,
+from which `get_candles_spec` / `get_current_candle_spec` give what a reader sees. -/
+
+open StoreProto in
+/-- the long array is right up to the window that contains the last stored minute; that window has no candle yet, or
+    one candle carrying its start timestamp (whatever its content) -/
+def PreInv (m : Nat) (short long : List Candle) : Prop :=
+  ∃ partials : List Candle,
+    long = visible m (short.take (StoreProto.k0 m short * m)) ++ partials ∧
+    (partials = [] ∨ ∃ p s0, partials = [p] ∧ short[StoreProto.k0 m short * m]? = some s0 ∧ p.ts = s0.ts)
+
+/-- session timestamps: minute `j` of the stored series starts at `t0 + j` minutes -/
+def Spaced (t0 : Int) (short : List Candle) : Prop :=
+  ∀ j (h : j < short.length), short[j].ts = t0 + 60000 * (j : Int)
+
+open StoreProto in
+/-- `StoreInv` implies `PreInv` (on a window boundary the last complete candle plays the part of the partial one) -/
+theorem pre_of_inv (m : Nat) (short long : List Candle) (hm : 0 < m) (hne : short ≠ [])
+    (hinv : StoreInv m short long) : PreInv m short long := by
+  obtain ⟨partials, hlong, hpart⟩ := hinv
+  by_cases hb : short.length % m = 0
+  · obtain ⟨hq, hfull⟩ := k0_of_boundary m short hm hne hb
+    have hp : partials = [] := by
+      rcases hpart with h | ⟨p, s0, _, hne', _⟩
+      · exact h
+      · exact absurd hb hne'
+    subst hp
+    obtain ⟨a, s0, _, hvis, hs0, hts⟩ := visible_last m short hm hne
+    refine ⟨[a], ?_, Or.inr ⟨a, s0, rfl, hs0, hts⟩⟩
+    rw [hlong, hq, hfull, List.take_of_length_le (le_refl _), List.append_nil]
+    exact hvis
+  · have hq := k0_of_forming m short hm hb
+    refine ⟨partials, by rw [hlong, hq], ?_⟩
+    rcases hpart with h | ⟨p, s0, hp, _, hs0, hts⟩
+    · exact Or.inl h
+    · exact Or.inr ⟨p, s0, hp, by rw [← hq]; exact hs0, hts⟩
+
+open StoreProto in
+/-- inside a window (`len % m ≠ 0`) `PreInv` IS `StoreInv`: a reader regenerates the forming candle -/
+theorem inv_of_pre_forming (m : Nat) (short long : List Candle) (hm : 0 < m)
+    (hb : short.length % m ≠ 0) (hpre : PreInv m short long) : StoreInv m short long := by
+  obtain ⟨partials, hlong, hpart⟩ := hpre
+  have hq := k0_of_forming m short hm hb
+  refine ⟨partials, by rw [hq]; exact hlong, ?_⟩
+  rcases hpart with h | ⟨p, s0, hp, hs0, hts⟩
+  · exact Or.inl h
+  · exact Or.inr ⟨p, s0, hp, hb, by rw [hq]; exact hs0, hts⟩
+
+open StoreProto in
+/-- NEW MINUTE: appending the next minute to a store that satisfies `StoreInv` gives `PreInv` -/
+theorem pre_of_new_minute (m : Nat) (short long : List Candle) (c : Candle) (hm : 0 < m)
+    (hinv : StoreInv m short long) : PreInv m (short ++ [c]) long := by
+  obtain ⟨partials, hlong, hpart⟩ := hinv
+  have hk : k0 m (short ++ [c]) = short.length / m := by unfold k0; simp
+  have hle : short.length / m * m ≤ short.length := Nat.div_mul_le_self _ _
+  unfold PreInv
+  rw [hk, List.take_append_of_le_length hle]
+  refine ⟨partials, hlong, ?_⟩
+  rcases hpart with h | ⟨p, s0, hp, hne', hs0, hts⟩
+  · exact Or.inl h
+  · refine Or.inr ⟨p, s0, hp, ?_, hts⟩
+    have hlt : short.length / m * m < short.length := by
+      have := Nat.div_add_mod short.length m
+      rw [Nat.mul_comm] at this; omega
+    rw [List.getElem?_append_left hlt]; exact hs0
+
+open StoreProto in
+/-- REPLACE LAST: rewriting the last stored minute (same timestamp) keeps `PreInv` -/
+theorem pre_of_replace_last (m : Nat) (short long : List Candle) (c last : Candle) (hm : 0 < m)
+    (hlast : short.getLast? = some last) (hts : c.ts = last.ts)
+    (hpre : PreInv m short long) : PreInv m (short.dropLast ++ [c]) long := by
+  have hne : short ≠ [] := by intro h; rw [h] at hlast; simp at hlast
+  obtain ⟨partials, hlong, hpart⟩ := hpre
+  have hpos : 0 < short.length := List.length_pos_iff.mpr hne
+  have hlen : (short.dropLast ++ [c]).length = short.length := by simp; omega
+  have hk : k0 m (short.dropLast ++ [c]) = k0 m short := by unfold k0; rw [hlen]
+  have hlt := k0_mul_lt m short hm hne
+  have hle : k0 m short * m ≤ short.dropLast.length := by simp; omega
+  have htake : (short.dropLast ++ [c]).take (k0 m short * m) = short.take (k0 m short * m) := by
+    rw [List.take_append_of_le_length hle, List.dropLast_eq_take, List.take_take]
+    congr 1; omega
+  unfold PreInv
+  rw [hk, htake]
+  refine ⟨partials, hlong, ?_⟩
+  rcases hpart with h | ⟨p, s0, hp, hs0, hpts⟩
+  · exact Or.inl h
+  · by_cases hidx : k0 m short * m < short.dropLast.length
+    · refine Or.inr ⟨p, s0, hp, ?_, hpts⟩
+      rw [List.getElem?_append_left hidx, List.dropLast_eq_take, List.getElem?_take]
+      have : k0 m short * m < short.length - 1 := by simpa using hidx
+      simp only [this, if_true]; exact hs0
+    · -- the window starts at the last stored minute itself: the new row has the same timestamp
+      have hidx' : k0 m short * m = short.length - 1 := by
+        have : ¬ k0 m short * m < short.length - 1 := by simpa using hidx
+        omega
+      have hs0l : s0 = last := by
+        rw [List.getLast?_eq_getElem?, ← hidx', hs0] at hlast; injection hlast
+      refine Or.inr ⟨p, c, hp, ?_, by rw [hpts, hs0l, hts]⟩
+      have : short.dropLast.length = k0 m short * m := by simp; omega
+      rw [List.getElem?_append_right (by omega), this]; simp
+
+open StoreProto in
+/-- PUBLISH / CLOSE WINDOW: adding the aggregate `g` of the window that contains the last stored minute to the long
+    array turns `PreInv` into `StoreInv` — in the middle of a window (the candle is the forming one) and on a window
+    boundary (it is the completed one) alike. -/
+theorem inv_of_window_candle (m : Nat) (short long : List Candle) (t0 : Int) (g : Candle) (hm : 0 < m)
+    (hne : short ≠ []) (ht0 : 0 < t0) (hsp : Spaced t0 short) (hpre : PreInv m short long)
+    (hg : generate m (short.drop (k0 m short * m)) = .ok g) :
+    StoreInv m short (addCandle long g) := by
+  obtain ⟨partials, hlong, hpart⟩ := hpre
+  obtain ⟨a, s0, hagg, hvis, hs0, hats⟩ := visible_last m short hm hne
+  have hga : g = a := by
+    rw [generate_is_aggregate, hagg] at hg; injection hg with h; exact h.symm
+  subst hga
+  have hlt := k0_mul_lt m short hm hne
+  have hs0e : s0 = short[k0 m short * m] := by
+    rw [List.getElem?_eq_getElem hlt] at hs0; injection hs0 with h; exact h.symm
+  have hgts : g.ts = t0 + 60000 * ((k0 m short * m : Nat) : Int) := by
+    rw [hats, hs0e]; exact hsp _ hlt
+  have hg0 : ¬ g.ts = 0 := by
+    rw [hgts]; have : (0 : Int) ≤ ((k0 m short * m : Nat) : Int) := Int.natCast_nonneg _; omega
+  -- every candle of the complete windows starts before the window of `g`
+  have hbefore : ∀ v ∈ visible m (short.take (k0 m short * m)), v.ts < g.ts := by
+    intro v hv
+    obtain ⟨c, hc, hvc⟩ := visible_ts_mem m _ v hv
+    obtain ⟨i, hi, hci⟩ := List.getElem_of_mem hc
+    have hi' : i < k0 m short * m := by simp only [List.length_take] at hi; omega
+    have hci' : short[i]'(by omega) = c := by rw [← hci]; simp
+    have := hsp i (by omega)
+    rw [hci'] at this
+    rw [hvc, this, hgts]
+    have : (i : Int) < ((k0 m short * m : Nat) : Int) := by exact_mod_cast hi'
+    omega
+  -- the long array after the write
+  have hadd : addCandle long g = visible m (short.take (k0 m short * m)) ++ [g] := by
+    unfold addCandle
+    simp only [hg0, if_false]
+    rcases hpart with hp | ⟨p, s0', hp, hs0', hpts⟩
+    · subst hp
+      rw [List.append_nil] at hlong
+      cases hl : long.getLast? with
+      | none =>
+        have : long = [] := List.getLast?_eq_none_iff.mp hl
+        simp only []; rw [← hlong, this]
+      | some l =>
+        have hlm : l ∈ visible m (short.take (k0 m short * m)) := by
+          rw [← hlong]; exact List.mem_of_getLast? hl
+        have := hbefore l hlm
+        simp only [this, if_true]; rw [hlong]
+    · subst hp
+      have hl : long.getLast? = some p := by rw [hlong]; simp
+      have hpe : p.ts = g.ts := by
+        rw [hpts, hats]; rw [hs0] at hs0'; injection hs0' with h; rw [h]
+      have hngt : ¬ g.ts > g.ts := lt_irrefl _
+      simp only [hl, hpe, hngt, if_false, if_true]
+      rw [hlong, List.dropLast_concat]
+  rw [hadd]
+  by_cases hb : short.length % m = 0
+  · obtain ⟨hq, hfull⟩ := k0_of_boundary m short hm hne hb
+    refine ⟨[], ?_, Or.inl rfl⟩
+    rw [hq, hfull, List.take_of_length_le (le_refl _), List.append_nil]
+    exact hvis.symm
+  · have hq := k0_of_forming m short hm hb
+    refine ⟨[g], by rw [hq], Or.inr ⟨g, s0, rfl, hb, ?_, hats⟩⟩
+    rw [hq]; exact hs0
+
+open StoreProto in
+/-- the window `_update_all_routes_a_partial_candle` selects by TIMESTAMP arithmetic
+    (`int(ts % (m * 60_000) // 60000) + 1` rows from the end) is the window that contains the last stored minute,
+    when the session starts on a boundary of the timeframe (as the property assumes) -/
+theorem needed_rows (m : Nat) (short : List Candle) (t0 : Int) (last : Candle) (hm : 0 < m)
+    (ht0 : 0 ≤ t0) (hal : t0 % ((m : Int) * 60000) = 0) (hsp : Spaced t0 short)
+    (hlast : short.getLast? = some last) :
+    short.length - (((last.ts % ((m : Int) * 60000)) / 60000).toNat + 1) = k0 m short * m := by
+  have hne : short ≠ [] := by intro h; rw [h] at hlast; simp at hlast
+  have hpos : 0 < short.length := List.length_pos_iff.mpr hne
+  have hl : last = short[short.length - 1] := by
+    rw [List.getLast?_eq_getElem?, List.getElem?_eq_getElem (by omega)] at hlast
+    injection hlast with h; exact h.symm
+  have hts : last.ts = t0 + 60000 * ((short.length - 1 : Nat) : Int) := by rw [hl]; exact hsp _ (by omega)
+  obtain ⟨q, hq⟩ : ∃ q : Int, t0 = ((m : Int) * 60000) * q := ⟨t0 / ((m : Int) * 60000), by
+    have := Int.emod_add_mul_ediv t0 ((m : Int) * 60000); rw [hal] at this; omega⟩
+  have hmod := Nat.div_add_mod (short.length - 1) m
+  have hr := Nat.mod_lt (short.length - 1) hm
+  -- ts = (m*60000) * (q + k0) + 60000 * r  with r = (len-1) % m < m
+  have hdecomp : last.ts = ((m : Int) * 60000) * (q + ((short.length - 1) / m : Nat)) + 60000 * (((short.length - 1) % m : Nat) : Int) := by
+    rw [hts, hq]
+    have : ((short.length - 1 : Nat) : Int) = (m : Int) * ((short.length - 1) / m : Nat) + ((short.length - 1) % m : Nat) := by
+      exact_mod_cast hmod.symm
+    rw [this]; ring
+  have hrem : last.ts % ((m : Int) * 60000) = 60000 * (((short.length - 1) % m : Nat) : Int) := by
+    rw [hdecomp, Int.add_comm, Int.add_mul_emod_self_left]
+    apply Int.emod_eq_of_lt
+    · positivity
+    · have : (((short.length - 1) % m : Nat) : Int) < (m : Int) := by exact_mod_cast hr
+      nlinarith
+  rw [hrem, Int.mul_ediv_cancel_left _ (by norm_num : (60000 : Int) ≠ 0), Int.toNat_natCast]
+  unfold k0
+  rw [Nat.mul_comm] at hmod
+  omega
+
+/-- non-vacuity of the protocol theorems: three stored minutes of a 3-minute timeframe starting at t0 = 180000
+    (a boundary), the long array still empty: `PreInv` holds, and adding the window's aggregate gives `StoreInv`. -/
+example :
+    let ones : List Candle := [⟨180000, 1, 2, 3, 1, 1⟩, ⟨240000, 2, 3, 4, 2, 1⟩, ⟨300000, 3, 2, 3, 1, 1⟩]
+    PreInv 3 ones [] ∧ Spaced 180000 ones ∧ (180000 : Int) % ((3 : Nat) * 60000) = 0 ∧
+      generate 3 (ones.drop (StoreProto.k0 3 ones * 3)) = .ok ⟨180000, 1, 2, 4, 1, 3⟩ := by
+  refine ⟨⟨[], by decide +kernel, Or.inl rfl⟩, ?_, by decide, by decide +kernel⟩
+  intro j h
+  have : j < 3 := h
+  match j, this with
+  | 0, _ => rfl
+  | 1, _ => rfl
+  | 2, _ => rfl
 
 end C07
